@@ -73,11 +73,11 @@ def cases(ctx):
     hdrs += [bytes(80), b'\xff' * 80]
     for h in hdrs:
         ctx.count('header')
-        yield Case(f'hdr_parse {hx(h)}', 'm', nontrivial=True, tag='hdr')
-        yield Case(f'hdr_ser {hx(h)}', 'ms', nontrivial=True, tag='hdr', spec=lambda ans, h=h: (f's:echo {hx(h)}', ans))
-        yield Case(f'hdr_hash {hx(h)}', 'ms', nontrivial=True, tag='hdr')
+        yield Case(f'hdr_parse {hx(h)}', 'gm', nontrivial=True, tag='hdr')
+        yield Case(f'hdr_ser {hx(h)}', 'gms', nontrivial=True, tag='hdr', spec=lambda ans, h=h: (f's:echo {hx(h)}', ans))
+        yield Case(f'hdr_hash {hx(h)}', 'gms', nontrivial=True, tag='hdr')
     for ln in (0, 1, 79, 81, 160):
-        yield Case(f'hdr_parse {hx(bytes(ln))}', 'm', nontrivial=True, tag='hdr-badlen', domain=False)
+        yield Case(f'hdr_parse {hx(bytes(ln))}', 'gm', nontrivial=True, tag='hdr-badlen', domain=False)
         yield Case(f'hdr_hash {hx(bytes(ln))}', 'ms', nontrivial=True, tag='hdr-badlen')
     for e in range(0, 41):
         for m in (0, 1, 0x7fffff, 0x800000, 0xffffff, rng.getrandbits(24)):
